@@ -479,3 +479,42 @@ Proof.
   induction means as [|m rest IH]; intros kw; [reflexivity|].
   cbn [sig_means_used map]. rewrite sig_mean_used_spec, IH. reflexivity.
 Qed.
+
+(* ------------------------------------------------------------------ *)
+(* Extension: random initials of the floating parameters                *)
+From Coq Require Import QArith Lqa.
+From Sky Require Import Num.
+Lemma param_initials_length {T} (N : Num T) bounds : forall u r,
+  param_initials N bounds u = Ok r -> length r = length bounds /\ length u = length bounds.
+Proof.
+  induction bounds as [|[lo hi] br IH]; intros u r H; destruct u as [|x ur]; cbn [param_initials] in H;
+    try discriminate.
+  - inversion H. split; reflexivity.
+  - destruct (param_initials N br ur) as [r0|] eqn:E; [|discriminate]. cbn [bind] in H.
+    inversion H. subst. destruct (IH _ _ E) as [H1 H2]. cbn [length]. split; congruence.
+Qed.
+
+Lemma param_initials_ok {T} (N : Num T) bounds : forall u,
+  length u = length bounds -> exists r, param_initials N bounds u = Ok r.
+Proof.
+  induction bounds as [|[lo hi] br IH]; intros u H; destruct u as [|x ur]; try discriminate.
+  - exists []. reflexivity.
+  - cbn [length] in H. destruct (IH ur ltac:(congruence)) as [r E].
+    cbn [param_initials]. rewrite E. cbn [bind]. eexists. reflexivity.
+Qed.
+
+(* over the rationals: every initial lies inside the bounds of its parameter *)
+Theorem param_initials_in_bounds_Q (bounds : list (Q * Q)) : forall (u r : list Q),
+  Forall (fun b => (fst b <= snd b)%Q) bounds ->
+  Forall (fun x => (0 <= x)%Q /\ (x <= 1)%Q) u ->
+  param_initials QNum bounds u = Ok r ->
+  Forall2 (fun b v => (fst b <= v)%Q /\ (v <= snd b)%Q) bounds r.
+Proof.
+  induction bounds as [|[lo hi] br IH]; intros u r Hb Hu H; destruct u as [|x ur]; cbn [param_initials] in H;
+    try discriminate.
+  - inversion H. constructor.
+  - destruct (param_initials QNum br ur) as [r0|] eqn:E; [|discriminate]. cbn [bind] in H.
+    inversion H. subst. inversion Hb as [|? ? Hlohi Hb']. inversion Hu as [|? ? [Hx0 Hx1] Hu']. subst.
+    constructor; [|apply (IH ur r0); assumption].
+    unfold init_value. cbn [fst snd nadd nmul nsub QNum] in *. split; nra.
+Qed.
